@@ -26,6 +26,7 @@ mod rng;
 mod settable;
 mod stubs;
 mod vals;
+mod words;
 mod worlds;
 
 use crate::core::*;
